@@ -22,6 +22,8 @@ StepOk(r) ==
       expIn == IF r.a.a = "recv" THEN Ids(InCalls(hs, IF r.a.ty = "1" THEN "1" ELSE IF r.a.ty = "0" THEN "0" ELSE "D")) ELSE <<>>
       tx == ot # "" /\ Transmitted(hs, ot, saveOk)
       outCalls == SelectSeq(r.calls, LAMBDA x : x.dir = "out")
+      IsMutator(id) == \E j \in 1..Len(hs) : hs[j].id = id /\ hs[j].mutate
+      anyMutator == \E j \in 1..Len(hs) : hs[j].mutate
   IN /\ (CallIds(r, "out") = expOut
            \/ Rej(r, "outgoing handlers were not called in registration order (all-types first) up to the first refusal",
                   [got |-> CallIds(r, "out"), expected |-> expOut]))
@@ -35,10 +37,12 @@ StepOk(r) ==
            \/ Rej(r, "send call result does not report the refusal / save failure", [err |-> r.err, transmitted |-> tx]))
      \* every message on the wire was saved before, under its own number, with the same bytes
      /\ ((\A j \in 1..Len(r.wire) : \E k \in 1..Len(r.saves) :
-            r.saves[k].ok /\ r.saves[k].seq = r.wire[j].seq /\ r.saves[k].bytes = r.wire[j].bytes)
+            r.saves[k].ok /\ r.saves[k].seq = r.wire[j].seq /\ (anyMutator \/ r.saves[k].bytes = r.wire[j].bytes))
            \/ Rej(r, "message on the wire was not saved first under its own sequence number", [wire |-> Len(r.wire), saves |-> Len(r.saves)]))
      \* outgoing handlers saw the message exactly as transmitted
-     /\ ((\A j \in 1..Len(r.wire) : \A k \in 1..Len(outCalls) : outCalls[k].bytes = r.wire[j].bytes)
+     \* (a handler that amends the message sees it as transmitted from its own amendment on)
+     /\ ((\A j \in 1..Len(r.wire) : \A k \in 1..Len(outCalls) :
+             (\A k2 \in (k + 1)..Len(outCalls) : ~IsMutator(outCalls[k2].h)) => outCalls[k].bytes = r.wire[j].bytes)
            \/ Rej(r, "an outgoing handler saw bytes that differ from the transmitted message", [n |-> Len(outCalls)]))
      /\ ((ot # "" => Len(r.saves) = 1)
            \/ Rej(r, "number of Save calls differs", [saves |-> Len(r.saves)]))
